@@ -192,6 +192,24 @@ class Repo:
             raise AnalysisError(f'anchor module {name} not found')
         return self.modules[name]
 
+    def ext_path(self, module: str, expr: ast.expr) -> str | None:
+        """Dotted path of an external name as written in `module` (aliases of imports resolved): lru_cache, functools.cache,
+        `from functools import cache as _cache` all give functools.<name>."""
+        text = ast.unparse(expr)
+        head, _, rest = text.partition('.')
+        imp = self.modules[module].imports.get(head) if module in self.modules else None
+        if imp is None or imp[0] != 'ext':
+            return None
+        return imp[1] + ('.' + rest if rest else '')
+
+    def memoised(self, fi: FuncInfo) -> bool:
+        """Is the function wrapped by functools.lru_cache / functools.cache (under whatever local name)?"""
+        for d in fi.node.decorator_list:
+            f = d.func if isinstance(d, ast.Call) else d
+            if self.ext_path(fi.module, f) in ('functools.lru_cache', 'functools.cache'):
+                return True
+        return False
+
     def _follow(self, module: str, name: str, depth: int = 0):
         """(kind, info) of `name` in the namespace of `module`, following imports inside the package:
         a helper that was moved to another module and imported back is still the module's helper."""
